@@ -790,12 +790,14 @@ IGNORED_CALLS = ("logger.", "logging.", "print", "warnings.")
 
 
 class AV:
-    def __init__(self, sm: SourceModel, inline=None, opaque=()):
+    def __init__(self, sm: SourceModel, inline=None, opaque=(), receivers=None):
         """``inline(callee: Func) -> bool`` decides which resolved callees are expanded (default: private helpers,
         nested functions, lambdas).  ``opaque``: dotted names never expanded."""
         self.sm = sm
         self.inline = inline or self.default_inline
         self.opaque = set(opaque)
+        # {text of a receiver value: class of the package}: method calls on such a value resolve into that class
+        self.receivers = dict(receivers or {})
         self._modenv: dict[str, dict] = {}
         self.call_log: list = []  # (caller Func, call node, value) for every opaque call met (in order)
         self._budget = 200000
@@ -1772,6 +1774,15 @@ class AV:
             return m
         # package callees
         callee = self._resolve(fn, fr)
+        if callee is None and self.receivers and isinstance(fn, ast.Attribute):
+            rv = self._ev(fn.value, fr)
+            cname = self.receivers.get(show(rv)) if rv[0] in ("sym", "attr") else None
+            if cname is not None:
+                for (rel_, qn), cobj in self.sm.classes.items():
+                    if qn == cname and fn.attr in cobj.methods:
+                        m_ = cobj.methods[fn.attr]
+                        if not any(x.split(".")[-1] in ("property", "cached_property", "abstractmethod", "staticmethod", "classmethod") for x in m_.decorators()):
+                            callee = m_
         if callee is not None and fr.depth < MAX_DEPTH and (dotted(fn) or "") not in self.opaque and self.inline(callee):
             bound_self = isinstance(fn, ast.Attribute) and not _is_static(callee) and not (isinstance(fn.value, ast.Name) and fn.value.id == callee.qualname.split(".")[0])
             v = self._apply_func(callee, args, kwargs, fr, self._ev(fn.value, fr) if bound_self else None)
